@@ -4,6 +4,7 @@ import (
 	"fmt"
 	"go/constant"
 	"go/token"
+	"go/types"
 	"sort"
 	"strings"
 
@@ -20,7 +21,9 @@ func checkC05(c *Ctx) {
 	r.Rule("R02.6", "(shared with C02) the pooled formatting context is returned to the pool by the normal path only, after the Write, and not used afterwards: a context put back by a deferred call after a panic inside a value's own method carries the half-built state (group prefix, colours) into the records that follow")
 	r.Rule("R05.11", "pair grammar of the fixed members: over every mode-feasible path of the printers of time, logger, level, msg and caller no two pairs follow each other without a separator, no separator follows a separator or an opening brace or precedes a closing one, whatever flags decide which parts are printed")
 	r.Rule("R05.9", "every attribute under its own key: the de-duplication of a member list merges two attributes only when their Key() strings are equal (its equality function returns nothing but a.Key() == b.Key(), identity of the two values, or a constant)")
+	r.Rule("R01.1", "(shared with C01) the level pair is the severity of the verb called: every verb emits at the severity it gates on")
 	r.Rule("R19.1", "(shared with C19) the record is the bytes the encoder appended: the write side of the formatting buffer is isomorphic to bytes.Buffer")
+	r.Rule("R15.3", "(shared with C15) attributes arriving through the log/slog handler keep key and value: each kind arm hands on the key and the value read with the accessor of its own kind, groups nested, LogValuers resolved")
 	r.Rule("R15.4", "(shared with C15) every attribute under its own key with its own value: handlers derived for log/slog own a fresh copy of the bound field list")
 	r.Rule("R02.3", "(shared with C02) every record is one line of pairs: the only payload that is not the finished buffer is the blank line of Print/Println, taken exactly for lvl == AlwaysLevel with a blank message")
 	r.Rule("R08.1", "(shared with C08) what a record says was logged by this call: nothing on the print path writes memory that outlives the call other than the pooled objects of this call")
@@ -54,8 +57,10 @@ func checkC05(c *Ctx) {
 		messageEmittedAsIs(c, p, m, mr, "R05.10")
 		c02Pool(c, p, m)
 		dedupeEquality(c, p, m, "R05.9")
+		pooledCtxFromConstructor(c, p, "R05.9")
+		c01Gates(c, p, m, tags)
 		c19WriteSide(c, p)
-		c15Derived(c, p, m)
+		c15Handler(c, p, m)
 		c02Newline(c, p, m)
 		c08Stores(c, p, m)
 		newlineRule(c, p, mr, "R05.4", map[string]string{"PrintCtx.End": "the record terminator of End(true)", "PrintCtx.EndArray": "EndArray(newline) for user marshallers", "Entry.printImpl": "blank-line shortcut"})
@@ -415,6 +420,31 @@ func c05Quoting(c *Ctx, p *Prog, m *Model, mr *ModeReach) {
 					rawOK = false
 				}
 			}
+		}
+	}
+	// the two-digit escape \xHH denotes ONE BYTE when the text is read back; it stands for the rune only below 0x80.
+	// Every way into the block that writes it bounds the rune by 0x7f.
+	for _, b := range aer.Blocks {
+		for _, in := range b.Instrs {
+			call, ok := in.(*ssa.Call)
+			if !ok || !isBuiltinCall(call, "append") || len(call.Common().Args) < 2 {
+				continue
+			}
+			if sx, ok := constString(stripNoIface(call.Common().Args[1])); !ok || sx != `\x` {
+				continue
+			}
+			var rv ssa.Value
+			for _, prm := range aer.Params {
+				if bt, isB := prm.Type().Underlying().(*types.Basic); isB && bt.Kind() == types.Int32 {
+					rv = prm
+				}
+			}
+			up, okb := int64(0), false
+			if rv != nil {
+				up, okb = upperOnEntry(rv, b)
+			}
+			r.Check(okb && up <= 0x7f, "R05.3", "appendEscapedRune:byte-escape", p.Pos(instrPos(call)), fmt.Sprintf("the \\xHH escape is written only for runes <= %#x", up),
+				fmt.Sprintf("the \\xHH escape is written for runes up to %#x (bounded: %v): above 0x7f the two hex digits read back as one raw byte, not as the rune, so the string does not parse back to itself", up, okb))
 		}
 	}
 	sort.Strings(badC)
